@@ -343,10 +343,13 @@ Proof.
 Qed.
 
 Lemma chomp_number_fail pos s e :
-  chomp_number pos s = Fail e -> exists n, e = InvalidNumber pos (pos + n).
+  chomp_number pos s = Fail e -> exists n, n <= length s /\ e = InvalidNumber pos (pos + n).
 Proof.
-  unfold chomp_number. destruct (number_span s 0 [] 0) as [d k].
+  unfold chomp_number. destruct (number_span s 0 [] 0) as [d k] eqn:Es.
   destruct k as [|k]; [discriminate|].
+  assert (Hk : S k <= length s).
+  { apply number_span_spec in Es. destruct Es as [Es|(m & c & E & Hc & _)]; [discriminate|].
+    assert (m < length s) by (apply nth_error_Some; congruence). lia. }
   destruct (parse_f64 d) as [x|]; [destruct (f64_is_finite x); [discriminate|]|];
     intros H; inversion H; eauto.
 Qed.
@@ -460,14 +463,14 @@ Proof.
 Qed.
 
 (* The dispatcher *)
-Definition err_at (pos : nat) (e : tok_error) : Prop :=
+Definition err_at (pos : nat) (s : bytes) (e : tok_error) : Prop :=
   e = IllegalCharacter pos \/ e = UnterminatedStringLiteral pos
-  \/ exists n, e = InvalidNumber pos (pos + n).
+  \/ exists n, n <= length s /\ e = InvalidNumber pos (pos + n).
 
 Lemma chomp_next_token_spec pos s :
   match chomp_next_token pos s with
   | Match t n => tok_spec s t n
-  | Fail e => err_at pos e
+  | Fail e => err_at pos s e
   | NoMatch => True
   end.
 Proof.
@@ -567,7 +570,7 @@ Fixpoint chain (E : nat -> Prop) (lo : nat) (ts : list ranged) : Prop :=
 
 (* Where and what an error is: at the first non-blank byte after [lo]. *)
 Definition err_here (e : tok_error) (lo : nat) : Prop :=
-  let p := lo + leading_ws (skipn lo line) in p < length line /\ err_at p e.
+  let p := lo + leading_ws (skipn lo line) in p < length line /\ err_at p (skipn p line) e.
 
 Lemma tok_from_chain : forall fuel pos,
   pos <= length line ->
@@ -693,10 +696,21 @@ Proof.
   destruct (chain_end _ _ _ _ Hc) as (lo' & [Hlt He] & Hle & Hin).
   set (p := lo' + leading_ws (skipn lo' line)) in *.
   assert (Hfst : fst (error_range e (length line)) = p).
-  { destruct He as [->|[->|[n ->]]]; reflexivity. }
+  { destruct He as [->|[->|[n [Hn ->]]]]; reflexivity. }
   split.
-  - destruct He as [->|[->|[n ->]]]; cbn [error_range]; lia.
+  - destruct He as [->|[->|[n [Hn ->]]]]; cbn [error_range]; lia.
   - intros t r HIn. rewrite Hfst. specialize (Hin _ _ HIn). lia.
+Qed.
+
+(* 2b. The end of the error range never exceeds the line *)
+Theorem tokenize_err_end : forall line skip ts e,
+  skip <= length line -> tokenize line skip = TokErr ts e ->
+  snd (error_range e (length line)) <= length line.
+Proof.
+  intros line skip ts e Hs H. pose proof (tokenize_chain line skip Hs) as Hc. rewrite H in Hc.
+  destruct (chain_end _ _ _ _ Hc) as (lo' & [Hlt He] & _ & _).
+  destruct He as [->|[->|[n [Hn ->]]]]; cbn [error_range snd]; try lia.
+  rewrite skipn_length in Hn. lia.
 Qed.
 
 (* 3. The first byte of every token is not a blank *)
@@ -997,12 +1011,13 @@ Proof.
   split.
   - intros t a b HIn. destruct (Hin _ _ _ HIn). split; now apply Valid_char_boundary_nc.
   - apply Valid_char_boundary_nc; [exact Hv|]. apply (nc_skip_blanks line Hv) in Hlo'.
-    destruct He as [->|[->|[n ->]]]; exact Hlo'.
+    destruct He as [->|[->|[n [Hn ->]]]]; exact Hlo'.
 Qed.
 
 (* ------------------------------------------------------------------ *)
 Print Assumptions tokenize_ranges_ok.
 Print Assumptions tokenize_err_ranges_ok.
+Print Assumptions tokenize_err_end.
 Print Assumptions tokenize_first_nonblank.
 Print Assumptions tokenize_first_nonblank_err.
 Print Assumptions tokenize_last_nonblank.
